@@ -12,6 +12,36 @@ open PyIpmi.FruXfer (Wire Xchg Send World Res xchg castErr)
 /-- The constants the proofs are made for (what the pinned source contains). -/
 def stdCfg : Cfg := ⟨255, 16, 16, 1, 202, 197, 0, 65535⟩
 
+/-- A floor of `max_req_len` that leaves every length ≥ 1 usable (as shipped: none; repaired: 0). -/
+def FloorOk (v : Variant) : Prop := ∀ f, v.floor = some f → f ≤ 0
+
+theorem floorOk_asShipped : FloorOk .asShipped := by intro f h; cases h
+theorem floorOk_intended : FloorOk .intended := by
+  intro f h; simp only [Variant.intended, Option.some.injEq] at h; omega
+
+/-- `req.length` on the wire while `max_req_len` is FFh or 1..16 -/
+def reqLenN (m off : Nat) : Nat := if m ≠ 255 ∧ off + m > 16 then 16 - off else m
+
+theorem wire_reqLen (m off : Nat) (hm : m < 256) (hoff : off ≤ 16) :
+    wireByte (reqLen stdCfg (m : Int) off) = reqLenN m off := by
+  simp only [wireByte, reqLen, reqLenN, stdCfg]
+  split <;> split <;> omega
+
+theorem shrink_entire (v : Variant) : shrink stdCfg v ((255 : Nat) : Int) = some ((16 : Nat) : Int) := by
+  simp [shrink, stdCfg]
+
+theorem shrink_dec (v : Variant) (hv : FloorOk v) (m : Nat) (h2 : 2 ≤ m) (h : m ≠ 255) :
+    shrink stdCfg v (m : Int) = some ((m - 1 : Nat) : Int) := by
+  have h' : ¬ (m : Int) = ((255 : Nat) : Int) := by omega
+  simp only [shrink, stdCfg, if_neg h']
+  have e : (m : Int) - ((1 : Nat) : Int) = ((m - 1 : Nat) : Int) := by omega
+  cases hf : v.floor with
+  | none => simp only [e]
+  | some f =>
+    have := hv f hf
+    simp only [e]
+    rw [if_neg (by omega)]
+
 theorem u16_bytes (v : Nat) (h : v < 65536) : v % 256 + 256 * (v / 256 % 256) = v := by omega
 
 /-! ### the script slot -/
@@ -158,13 +188,13 @@ id of its successor, for every partial-read limit ≥ 1 and with or without whol
 theorem entryLoop_exact (d : SelDev) (r rid : Nat) (e : List Nat) (next : Nat)
     (hev : d.evs = []) (hv : d.valid = true) (hc : d.cur = r) (hr1 : 1 ≤ r) (hr : r < 65536)
     (hrid : rid < 65536) (hf : find d.log rid = some (e, next)) (hlen : e.length = 16)
-    (hty : typeOk e) (hnext : next < 65536) (hl : 1 ≤ d.limit) :
+    (hty : typeOk e) (hnext : next < 65536) (hl : 1 ≤ d.limit) (v : Variant) (hv : FloorOk v) :
     ∀ (fuel : Nat) (w : World SelDev) (m : Nat) (acc : List Nat),
       w.dev = d → acc = e.take acc.length → acc.length < 16 →
       ((m = 255 ∧ acc = []) ∨ (1 ≤ m ∧ m ≤ 16 ∧ (acc ≠ [] → m ≤ d.limit))) →
       (if m = 255 then 34 else m) + (16 - acc.length) + 1 ≤ fuel →
-      (entryLoop stdCfg respond fuel w r rid m acc).out = .ok (e, next) ∧
-      (entryLoop stdCfg respond fuel w r rid m acc).w.dev = d := by
+      (entryLoop stdCfg v respond fuel w r rid (m : Int) acc).out = .ok (e, next) ∧
+      (entryLoop stdCfg v respond fuel w r rid (m : Int) acc).w.dev = d := by
   have htick : tick d = d := tick_nil d hev
   have hh : holds (tick d) r = true := by rw [htick]; exact holds_of d r hv hc
   have hf' : find (tick d).log rid = some (e, next) := by rw [htick]; exact hf
